@@ -22,3 +22,65 @@ theorem bshape_comm (a b : List Nat) : bshape a b = bshape b a := by
   simp only [bshape, bshapeRev_comm a.reverse b.reverse]
 
 end RtenVerif.OnnxRef
+
+namespace RtenVerif.OnnxRef
+
+theorem bdim_assoc (x y z : Nat) :
+    (bdim x y).bind (fun d => bdim d z) = (bdim y z).bind (fun d => bdim x d) := by
+  unfold bdim
+  by_cases h1 : x = 1 <;> by_cases h2 : y = 1 <;> by_cases h3 : z = 1 <;>
+  by_cases h4 : x = y <;> by_cases h5 : y = z <;> by_cases h6 : x = z <;>
+  simp_all <;> omega
+
+theorem bshapeRev_nil_right (a : List Nat) : bshapeRev a [] = some a := by
+  cases a <;> rfl
+
+theorem bshapeRev_cons_cons (x y : Nat) (xs ys : List Nat) :
+    bshapeRev (x :: xs) (y :: ys) =
+      (bdim x y).bind (fun d => (bshapeRev xs ys).bind (fun r => some (d :: r))) := by
+  simp only [bshapeRev]
+  cases bdim x y <;> cases bshapeRev xs ys <;> rfl
+
+theorem bshapeRev_assoc : ∀ (a b c : List Nat),
+    (bshapeRev a b).bind (fun s => bshapeRev s c) = (bshapeRev b c).bind (fun s => bshapeRev a s)
+  | [], b, c => by
+    simp only [bshapeRev, Option.bind_some]
+    cases h : bshapeRev b c <;> simp
+  | x :: xs, [], c => by
+    simp only [bshapeRev, Option.bind_some]
+  | x :: xs, y :: ys, [] => by
+    simp only [bshapeRev_nil_right, Option.bind_some]
+    cases h : bshapeRev (x :: xs) (y :: ys) <;> simp
+  | x :: xs, y :: ys, z :: zs => by
+    have ih := bshapeRev_assoc xs ys zs
+    have hd := bdim_assoc x y z
+    simp only [bshapeRev_cons_cons]
+    cases hxy : bdim x y <;> cases hyz : bdim y z <;>
+      cases hxs : bshapeRev xs ys <;> cases hys : bshapeRev ys zs <;>
+      simp only [hxy, hyz, hxs, hys, Option.bind_some, Option.bind_none, bshapeRev_cons_cons] at ih hd ⊢ <;>
+      clear hxy hyz hxs hys <;>
+      first
+      | rfl
+      | (rw [hd, ih]; done)
+      | (rw [← hd]; rfl)
+      | (rw [hd]; rfl)
+      | (rw [← ih]; cases bdim _ _ <;> rfl)
+      | (rw [ih]; cases bdim _ _ <;> rfl)
+      | (rw [hd, ih]; rfl)
+      | (rw [hd, ih]; cases bdim _ _ <;> rfl)
+
+/-- Broadcasting of shapes is associative, including failure (`none`) propagation. -/
+theorem bshape_assoc (a b c : List Nat) :
+    (bshape a b).bind (fun s => bshape s c) = (bshape b c).bind (fun s => bshape a s) := by
+  have h := bshapeRev_assoc a.reverse b.reverse c.reverse
+  unfold bshape
+  cases hab : bshapeRev a.reverse b.reverse <;> cases hbc : bshapeRev b.reverse c.reverse <;>
+    simp only [hab, hbc, Option.bind_some, Option.bind_none, Option.map_some, Option.map_none,
+      List.reverse_reverse] at h ⊢ <;>
+    first
+    | rfl
+    | (rw [← h]; rfl)
+    | (rw [h]; rfl)
+    | (rw [h]; done)
+
+end RtenVerif.OnnxRef
